@@ -155,6 +155,11 @@ structure Cfg where
   numFdsCap : Option Nat
   /-- `io_counters` iterates `for line in f` over the file object returned by `open_binary(fname)` -/
   ioIterFile : Bool
+  /-- seeded round 5 — the `except` clauses of the `try: st = os.stat(path)` of `isfile_strict`, in source
+      order: (classes named, `true` = the clause answers `False` / `false` = it re-raises) -/
+  isfileHandlers : List (List Bytes × Bool)
+  /-- the same for `path_exists_strict` (used by `readlink()` for the `' (deleted)'` rule) -/
+  existsHandlers : List (List Bytes × Bool)
 
 /-! ### what the methods can raise -/
 
@@ -228,15 +233,37 @@ structure Entry where
   link : Res LinkErr Bytes      -- `os.readlink("/proc/<pid>/fd/<name>")`
   info : InfoRes
 
+/-! ### `os.stat` failing with an errno that is neither ENOENT nor EACCES / EPERM (seeded round 5) -/
+
+def clsPermissionError : Bytes := [80, 101, 114, 109, 105, 115, 115, 105, 111, 110, 69, 114, 114, 111, 114]
+def clsFileNotFoundError : Bytes :=
+  [70, 105, 108, 101, 78, 111, 116, 70, 111, 117, 110, 100, 69, 114, 114, 111, 114]
+def clsProcessLookupError : Bytes :=
+  [80, 114, 111, 99, 101, 115, 115, 76, 111, 111, 107, 117, 112, 69, 114, 114, 111, 114]
+
+/-- `os.stat(p)` fails with errno `en`, raised by CPython as the `OSError` subclass `cls`
+    (`NotADirectoryError` for ENOTDIR, plain `OSError` for ELOOP / ENAMETOOLONG / ESTALE / EIO /
+    ENOTCONN / EOVERFLOW …). EACCES / EPERM are not in this type: that is what `FS.denied` says. -/
+structure StatFail where
+  en : Nat
+  cls : Bytes
+  notPerm : cls ≠ clsPermissionError
+
 /-- the file system `isfile_strict` / `path_exists_strict` look at: `os.stat(p)` succeeds on a
     regular file (`isFile`), succeeds (`pathExists`), or fails with EACCES / EPERM (`denied`: a
     directory on the way that the monitor may not search, another user's FUSE mount …). A path
     that is `denied` is neither `isFile` nor `pathExists` (the same `os.stat` cannot both fail and
-    succeed); the model asks `denied` first wherever the code lets PermissionError through. -/
+    succeed); the model asks `denied` first wherever the code lets PermissionError through.
+    Seeded round 5: `statErr p = some f` — `os.stat(p)` fails with ANOTHER errno (ENOTDIR: a parent
+    directory was replaced by a file; ELOOP; ENAMETOOLONG; ESTALE / EIO / ENOTCONN: a dead network or
+    FUSE mount; …). Same convention: such a path is neither `isFile` nor `pathExists`; the model asks
+    `statErr` wherever the helper's `except` clauses let that class through. A path with none of the
+    four answers (`isFile`, `pathExists`, `denied`, `statErr`) is one for which `os.stat` says ENOENT. -/
 structure FS where
   isFile : Bytes → Bool
   pathExists : Bytes → Bool
   denied : Bytes → Bool := fun _ => false
+  statErr : Bytes → Option StatFail := fun _ => none
 
 structure Proc where
   /-- `os.listdir("/proc/<pid>/fd")` -/
@@ -341,6 +368,45 @@ def catchAll : List Bytes :=
 def catches (classes : List Bytes) (cls : Bytes) : Bool :=
   classes.contains cls || classes.any fun c => catchAll.contains c
 
+/-! ### the strict stat helpers on a failing `os.stat` (seeded round 5) -/
+
+/-- what the `try: os.stat(path)` of a strict helper does with an exception of class `cls`: the first
+    clause that catches it decides (`some true` = the helper answers `False`, `some false` = the clause
+    re-raises); `none` = no clause catches it, it propagates -/
+def statAnswer : List (List Bytes × Bool) → Bytes → Option Bool
+  | [], _ => none
+  | (cs, a) :: hs, cls => if catches cs cls then some a else statAnswer hs cls
+
+/-- the helper answers `False` for a failure of class `cls` -/
+def statFalse (hs : List (List Bytes × Bool)) (cls : Bytes) : Bool := statAnswer hs cls == some true
+
+/-- `os.stat(p)` fails inside a strict helper with something other than EACCES / EPERM and the helper
+    lets it out: the (errno, class) that escapes. ENOENT (no answer of the file system for `p`) goes
+    through the same clauses. -/
+def statEscapes (hs : List (List Bytes × Bool)) (fs : FS) (p : Bytes) : Option (Nat × Bytes) :=
+  match fs.statErr p with
+  | some f => if statFalse hs f.cls then none else some (f.en, f.cls)
+  | none =>
+    if !fs.pathExists p && !fs.isFile p && !fs.denied p && !statFalse hs clsFileNotFoundError then
+      some (2, clsFileNotFoundError)
+    else none
+
+/-- the exception as `wrap_exceptions` sees it -/
+def excOfCls (cls : Bytes) : Exc :=
+  if cls == clsFileNotFoundError then .fileNotFound
+  else if cls == clsProcessLookupError then .processLookup
+  else if cls == clsPermissionError then .permissionError
+  else .osError
+
+/-- decidable criterion for "every failure other than PermissionError is answered `False`": walking the
+    clauses in order, a clause that is not a catch-all either answers `False` or names nothing but
+    PermissionError, and a catch-all clause answering `False` is reached -/
+def allOthersFalse : List (List Bytes × Bool) → Bool
+  | [] => false
+  | (cs, a) :: hs =>
+    if cs.any fun c => catchAll.contains c then a
+    else (a || cs.all fun c => c == clsPermissionError) && allOthersFalse hs
+
 /-- `os.readlink` failed with an errno that is not ENOENT / ESRCH / EACCES / EPERM: handled as "gone"
     if the `hit_enoent` handler names its class, swallowed if another handler names its class or the
     `except OSError` handler `continue`s on the errno, else re-raised (`raise`) and — no row of
@@ -383,19 +449,42 @@ def scanFile (cfg : Cfg) (e : Entry) (path : Bytes) : Step :=
       | none => .raise .valueError
       | some fd => .item ⟨path, fd, pos, mode, flags⟩
 
+/-- `path_exists_strict(path)` inside `readlink()` (called only for a text ending in `' (deleted)'`)
+    lets another `os.stat` failure out: what escapes -/
+def pyReadlinkEscapes (cfg : Cfg) (fs : FS) (raw : Bytes) : Option (Nat × Bytes) :=
+  let path := raw.takeWhile (· != 0)
+  if endsWith cfg.delSuffix path then statEscapes cfg.existsHandlers fs path else none
+
+/-- an exception that left `readlink(file)` from inside `path_exists_strict` meets the handlers around
+    `path = readlink(file)` like one raised by `os.readlink` itself -/
+def escapedLinkStep (cfg : Cfg) (x : Nat × Bytes) : Step :=
+  if x.2 == clsFileNotFoundError then linkErrStep cfg .enoent
+  else if x.2 == clsProcessLookupError then linkErrStep cfg .esrch
+  else otherLinkStep cfg x.1 x.2
+
+/-- `isfile_strict(path)` lets an `os.stat` failure other than EACCES / EPERM out (the call sits
+    outside every `try` of the loop); asked only for an absolute path when `startswith` comes first -/
+def isfileEscapes (cfg : Cfg) (fs : FS) (path : Bytes) : Option (Nat × Bytes) :=
+  if startsWith cfg.absPrefix path || !cfg.absFirst then statEscapes cfg.isfileHandlers fs path else none
+
 def scanOne (cfg : Cfg) (fs : FS) (e : Entry) : Step :=
   match e.link with
   | .err le => linkErrStep cfg le
   | .ok raw =>
     if pyReadlinkDenied cfg fs raw then deniedLinkStep cfg
-    else
+    else match pyReadlinkEscapes cfg fs raw with
+    | some x => escapedLinkStep cfg x
+    | none =>
       let path := pyReadlink cfg fs raw
       -- `isfile_strict(path)`: os.stat refused → PermissionError (outside every try of the loop);
       -- asked only for an absolute path when the `startswith` conjunct comes first
       if (startsWith cfg.absPrefix path || !cfg.absFirst) && (cfg.isfileDeniedRaises && fs.denied path) then
         .raise .permissionError
-      else if startsWith cfg.absPrefix path && fs.isFile path then scanFile cfg e path
-      else .skip
+      else match isfileEscapes cfg fs path with
+      | some x => .raise (excOfCls x.2)
+      | none =>
+        if startsWith cfg.absPrefix path && fs.isFile path then scanFile cfg e path
+        else .skip
 
 /-- the `for fd in files:` loop: the list built and `hit_enoent`, or the first exception -/
 def scan (cfg : Cfg) (fs : FS) : List Entry → Except Exc (List POpenFile × Bool)
